@@ -11,6 +11,9 @@ NOTE = ("Trusted base: the Go type checker (go/types), go/packages loading of /r
 
 # id -> (technique, level text, design ref)
 CLAIMS = {
+ "C27": ("field-coverage of the update validator's type comparator (SSA field reads of the expected type vs the ast struct's semantic fields) + census of the validator's rule functions",
+         "Structural necessary conditions: the comparator that decides whether a field's type changed looks at every semantic component of each kind of type, and the validator still runs its kind, field and nested-declaration checks.",
+         "DESIGN.md §4 C27"),
  "C09": ("census of the subtype-relation call in every cast/type-test implementation + controlling-condition check of the force-cast failure + twin agreement of the optional-unboxing guard between interpreter and VM",
          "Structural necessary conditions: casts and type tests of both engines decide through the one subtype relation on the dynamic type, fail exactly on its false outcome, and unbox optionals under the same guard.",
          "DESIGN.md §4 C09"),
